@@ -145,6 +145,15 @@ def judge_mixed(version, b, le, u):
     batch = e_call(version, b, le, u)
     if isinstance(batch, str):
         return [("explicit_u_batch", "values", batch)]
+    # the random numbers passed by keyword, and the whole call by keyword, are the same call
+    t = taus(version)
+    try:
+        kw1 = np.asarray(t.tau_energy(np.array(b, dtype=float), np.array(le, dtype=float), u=np.array(u, dtype=float)))
+        kw2 = np.asarray(t.tau_energy(betas=np.array(b, dtype=float), log_e_nu=np.array(le, dtype=float), u=np.array(u, dtype=float)))
+        if kw1.tobytes() != batch.tobytes() or kw2.tobytes() != batch.tobytes():
+            out.append(("explicit_u_keyword_equals_positional", batch.tolist(), kw1.tolist() if kw1.tobytes() != batch.tobytes() else kw2.tolist()))
+    except Exception as ex:
+        out.append(("explicit_u_keyword_equals_positional", "values", f"{type(ex).__name__}: {str(ex)[:80]}"))
     if batch.shape != (len(b),):
         return [("explicit_u_batch", (len(b),), batch.shape)]
     for i in range(len(b)):
